@@ -117,12 +117,12 @@ def replay_all(trans):
 
 KEY = {"C06": "c06", "C08": "c08", "C09": "c09"}
 PLANS = {
-    "C08": dict(quick=[("cache", "small", 3, 3)], thorough=[("cache", "small", 4, 3), ("path", "tiny", 2, 4)]),
+    "C08": dict(quick=[("cache", "small", 3, 3)], thorough=[("cache", "small", 3, 3), ("cache", "tiny", 4, 3), ("path", "tiny", 2, 4)]),
     "C09": dict(quick=[("path", "small", 1, 4), ("cache", "small", 2, 3), ("path", "tiny", 2, 2)],
-                thorough=[("path", "small", 1, 6), ("path", "small", 2, 3), ("cache", "small", 4, 3)]),
+                thorough=[("path", "small", 1, 6), ("path", "small", 2, 3), ("cache", "tiny", 4, 3)]),
     # ("near", universe, extra calls, shape bound): every valid shape <= (3,3)/(4,4)/(4,5) + every single further call
     "C06": dict(quick=[("valid", "small", 3, 3), ("near", "near4", 1, 4)],
-                thorough=[("valid", "small", 4, 3), ("valid", "valid4", 3, 3), ("near", "near4", 1, 5), ("near", "near4", 2, 3)]),
+                thorough=[("valid", "small", 3, 3), ("valid", "valid4", 3, 3), ("near", "near4", 1, 5), ("near", "near4", 2, 3)]),
 }
 
 
